@@ -482,6 +482,22 @@ def check_projection(rep, prog, m):
                         _last(dotted(b[0].value.func)) == 'append' and ast.unparse(b[0].value.args[0]) == cv
                     ok = okt and oka
                     det = 'keeps %s where %s' % (cv, ast.unparse(t))
+    if not det:
+        # the same selection written as a comprehension: [curr for (curr, fixed) in zip(pin, fixed_params) if <fixed is None>]
+        for n in own_nodes(down):
+            if isinstance(n, (ast.ListComp, ast.GeneratorExp)) and len(n.generators) == 1:
+                g = n.generators[0]
+                it, tgt = g.iter, g.target
+                if isinstance(it, ast.Call) and dotted(it.func) == 'enumerate' and it.args and isinstance(tgt, ast.Tuple) and len(tgt.elts) == 2:
+                    it, tgt = it.args[0], tgt.elts[1]
+                if isinstance(it, ast.Call) and dotted(it.func) == 'zip' and [ast.unparse(a) for a in it.args] == ['pin', 'fixed_params'] \
+                        and isinstance(tgt, ast.Tuple) and len(tgt.elts) == 2 and all(isinstance(t_, ast.Name) for t_ in tgt.elts) and len(g.ifs) == 1:
+                    cv, fv = [t_.id for t_ in tgt.elts]
+                    t = g.ifs[0]
+                    okt = isinstance(t, ast.Compare) and len(t.ops) == 1 and isinstance(t.ops[0], ast.Is) and ast.unparse(t.left) == fv \
+                        and isinstance(t.comparators[0], ast.Constant) and t.comparators[0].value is None
+                    ok = okt and ast.unparse(n.elt) == cv
+                    det = 'keeps %s where %s%s' % (ast.unparse(n.elt), ast.unparse(t), '' if okt else ' (a fixed value of 0 or an empty value is not None: the test must be `is None`)')
     rep.ob('R-TPL', '_project_params_down', ok, det or 'selection loop not recognised', rel, down.lineno, what='keeps exactly the entries whose fixed value is None, in order')
     ok = False
     det = ''
